@@ -91,7 +91,8 @@ def specStep (cfg : Cfg) (a : Abs) : Op → Abs × Obs
     match a.tasks[t]? with
     | none => (a, .tick .bad)
     | some (i, _, done) =>
-      if a.idle i d then
+      if i ≥ a.n then (a, .tick .bad)
+      else if a.idle i d then
         ({ a with tasks := a.tasks.modify t (fun k => (k.1, k.2.1, true)) }.close i, .tick (.ran true))
       else (a, .tick (.ran done))
   | .touch i => ({ a with hls := upd a.hls i ((a.hls i).map (fun _ => a.now)) }, .unit)
